@@ -113,12 +113,14 @@ func (s *Store) persist(higher Snapshot, persistOptions StorePersistOptions) (
 	}
 
 	// If higher segment has no data, we're still clean, so just snapshot,
-	// unless a child collection was deleted, which needs a new footer.
+	// unless a child collection was deleted or a (still empty) child
+	// collection was created, which needs a new footer.
 	if ss.isEmpty() {
 		s.m.Lock()
-		droppedChildren := s.footer != nil && s.footer.hasDroppedChildren(ss)
+		changedChildren := s.footer != nil &&
+			(s.footer.hasDroppedChildren(ss) || s.footer.hasNewChildren(ss))
 		s.m.Unlock()
-		if !droppedChildren {
+		if !changedChildren {
 			return s.Snapshot()
 		}
 	}
